@@ -1,4 +1,4 @@
-From DT Require Import Lib.Bytes Model.C18_Discovery.
+From DT Require Import Lib.Bytes Lib.Split Model.C18_Discovery.
 From Coq Require Import Permutation.
 
 Section Generic.
@@ -117,35 +117,6 @@ Section Generic.
 End Generic.
 
 (* ---- sources ---- *)
-Fixpoint join_with (sep : byte) (l : list bytes) : bytes :=
-  match l with
-  | [] => []
-  | [x] => x
-  | x :: r => x ++ sep :: join_with sep r
-  end.
-
-Lemma split_on_join sep cur s : join_with sep (split_on sep cur s) = rev cur ++ s.
-Proof.
-  revert cur; induction s as [|c s IH]; intros cur; simpl.
-  - now rewrite rev'_rev, app_nil_r.
-  - destruct (beqb_spec c sep) as [->|Hn].
-    + specialize (IH []). simpl in IH.
-      destruct (split_on sep [] s) as [|p ps] eqn:E.
-      * destruct s; simpl in E; [discriminate|destruct (beqb _ _); discriminate].
-      * cbn [join_with]. rewrite rev'_rev. cbn [join_with] in IH. rewrite IH. reflexivity.
-    + rewrite IH. simpl. now rewrite <- app_assoc.
-Qed.
-
-Lemma split_on_no_sep sep cur s :
-  ~ In sep cur -> Forall (fun e => ~ In sep e) (split_on sep cur s).
-Proof.
-  revert cur; induction s as [|c s IH]; intros cur Hc; simpl.
-  - constructor; [|constructor]. rewrite rev'_rev, <- in_rev. exact Hc.
-  - destruct (beqb_spec c sep) as [->|Hn].
-    + constructor; [rewrite rev'_rev, <- in_rev; exact Hc|]. apply IH. simpl; tauto.
-    + apply IH. simpl. intros [H|H]; [congruence|contradiction].
-Qed.
-
 Theorem comma_split_spec s :
   join_with x2c (comma_split s) = s /\ Forall (fun e => ~ In x2c e) (comma_split s).
 Proof.
